@@ -826,7 +826,7 @@ func (e *byzEngine) evaluate(bs *byzState, c Claim, prog *byzProgress, stats *St
 			before = copyStump(bs.stump)
 			work := copyStump(bs.stump)
 			// the additions are part of the untrusted input as well
-			adds := [][]H{{{0x77, 1}, {0x77, 2}}, nil, {{}}, {{0x77, 3}, {}}, {{0x77, 4}, {0x77, 4}}, {{}, {0x77, 5}, {0x77, 6}}}[dg%6]
+			adds := [][]H{{{0x77, 1}, {0x77, 2}}, nil, {{}}, {{0x77, 3}, {}}, {{0x77, 4}, {0x77, 4}}, {{}, {0x77, 5}, {0x77, 6}}}[addsChoice(c.Targets, len(c.Hashes), len(c.Proof))]
 			call = func() error {
 				_, err := work.Update(hashes, adds, proof)
 				if err != nil {
@@ -990,4 +990,15 @@ func classifyFalseClaim(c Claim, L *Layout) string {
 		return "misplaced-true-hash"
 	}
 	return "false-claim"
+}
+
+// addsChoice: which addition list accompanies a claim handed to Stump.Update —
+// a function of the claim alone, so that a replay of the single claim makes
+// the same call.
+func addsChoice(targets []uint64, nh, np int) int {
+	k := uint64(nh)*31 + uint64(np)*7 + uint64(len(targets))*131
+	for _, t := range targets {
+		k = mix64(k ^ t)
+	}
+	return int(k % 6)
 }
